@@ -164,11 +164,6 @@ impl Property for C05Prop {
             // a union of 3-4 members of one kind whose components partially subsume each other: what
             // the checker derives from it (field, element, result, parameter types ...) is a fold over
             // the members in hash order
-            const COMPONENTS: [&str; 18] = [
-                "any",
-                "int", "float", "string", "[int]", "[int|float]", "[int|float|string]", "[string]", "(int, [int])", "(int, [int|string])",
-                "mut int", "mut (int|float)", "mut string", "()->int", "()->int|float", "struct{a: [int]}", "struct{a: [int|string]}", "()",
-            ];
             // one kind for all members, or (wrap 9) a kind of its own for every member: the derived
             // types must then be "none" whatever member the fold meets first
             let wrap = tape.below(10);
@@ -177,18 +172,7 @@ impl Property for C05Prop {
                 .map(|_| {
                     let c = *tape.pick(&COMPONENTS);
                     let wrap = if wrap == 9 { tape.below(10) } else { wrap };
-                    match wrap {
-                        9 => c.to_string(),
-                        0 => format!("struct{{a: {c}}}"),
-                        1 => format!("struct{{a: {c}, b: int}}"),
-                        2 => format!("[{c}]"),
-                        3 => format!("({c}, int)"),
-                        4 => format!("(int, {c})"),
-                        5 => format!("mut {}", if c.contains('|') || c.contains("->") { format!("({c})") } else { c.to_string() }),
-                        6 => format!("()->{}", if c.contains("->") { format!("({c})") } else { c.to_string() }),
-                        7 => format!("({c})->int"),
-                        _ => format!("()->(bool, {c})"),
-                    }
+                    wrapped(c, wrap)
                 })
                 .collect();
             return Some(json!({"kind": "queries", "u": members.join("|"), "reps": tier.of(6, 24)}));
@@ -454,6 +438,30 @@ const ORDER_SENSITIVE: [&str; 19] = [
     "(x: [int]|[string]) -> any { return x[0]; }",
 ];
 
+/// component types that partially subsume each other (what the checker derives from a union of them
+/// is a fold over the members in hash order)
+const COMPONENTS: [&str; 18] = [
+    "any",
+    "int", "float", "string", "[int]", "[int|float]", "[int|float|string]", "[string]", "(int, [int])", "(int, [int|string])",
+    "mut int", "mut (int|float)", "mut string", "()->int", "()->int|float", "struct{a: [int]}", "struct{a: [int|string]}", "()",
+];
+
+/// a component inside one of nine kinds of type
+fn wrapped(c: &str, wrap: usize) -> String {
+    match wrap {
+        0 => format!("struct{{a: {c}}}"),
+        1 => format!("struct{{a: {c}, b: int}}"),
+        2 => format!("[{c}]"),
+        3 => format!("({c}, int)"),
+        4 => format!("(int, {c})"),
+        5 => format!("mut {}", if c.contains('|') || c.contains("->") { format!("({c})") } else { c.to_string() }),
+        6 => format!("()->{}", if c.contains("->") { format!("({c})") } else { c.to_string() }),
+        7 => format!("({c})->int"),
+        8 => format!("()->(bool, {c})"),
+        _ => c.to_string(),
+    }
+}
+
 /// a cell of the unary matrix together with a call on one of the catalogue's values of the operand type
 fn matrix_call(x: usize, t: usize, v: usize) -> String {
     let x = &CATALOGUE[x];
@@ -558,6 +566,17 @@ pub fn run(session: &Session) -> i32 {
     }
     for text in crate::props::c03::corpus() {
         cases.push(json!({"kind": "program", "text": text, "reps": reps}));
+    }
+    // every set of three component types inside every kind of type: what the checker derives from the union
+    for wrap in 0..9 {
+        for i in 0..COMPONENTS.len() {
+            for j in i + 1..COMPONENTS.len() {
+                for k in j + 1..COMPONENTS.len() {
+                    let u = [COMPONENTS[i], COMPONENTS[j], COMPONENTS[k]].map(|c| wrapped(c, wrap)).join("|");
+                    cases.push(json!({"kind": "queries", "u": u, "reps": reps}));
+                }
+            }
+        }
     }
     session.set_extra("enumerated_cases", json!(cases.len()));
     session.set_extra("repetitions_per_case", json!(reps));
